@@ -301,6 +301,113 @@ func runC05(c *Ctx) {
 		c.verdict(len(bad) == 0 && len(sites) >= 2, c.nm(fn)+" | fetch path under mtxCFilter", c.P.Pos(fn.Pos()), "prepare + query + cache re-check under the mutex", join(bad), c.ats(sites)...)
 	})
 
+	c.rule("C05.T1", "writer/reader agreement of the persistent filter store and the cache: putFilter stores filter.NBytes() under the block hash it is given; PutFilters passes each record's own hash and filter; FetchFilter reads under the requested hash and decodes with the same parameters (builder.DefaultP/DefaultM) as the network handler; cache get/put build the same key from (block hash, filter type)", func() {
+		pf := c.fn("filterdb.putFilter")
+		put := c.method("github.com/btcsuite/btcwallet/walletdb", "ReadWriteBucket", "Put")
+		nbytes := c.method(pGcs, "Filter", "NBytes")
+		okPut, n := true, 0
+		for _, call := range find(pf, callTo(put)) {
+			a := ir.CallOf(call).Args
+			n++
+			if !ir.DerivesFrom(a[0], func(x ssa.Value) bool { return x == ssa.Value(pf.Params[1]) }) {
+				okPut = false
+			}
+			if !ir.IsNil(a[1]) && !(ir.DerivesFrom(a[1], valIsCallTo(nbytes))) {
+				okPut = false
+			}
+		}
+		for _, nb := range find(pf, callTo(nbytes)) {
+			if ir.CallOf(nb).Args[0] != ssa.Value(pf.Params[2]) {
+				okPut = false
+			}
+		}
+		c.verdict(okPut && n >= 1, c.nm(pf)+" | bucket.Put(hash[:], filter.NBytes())", c.P.Pos(pf.Pos()), "key from the hash parameter, value from the filter parameter", "putFilter does not store the given filter's NBytes under the given hash")
+		pfs := c.fn("(*filterdb.FilterStore).PutFilters")
+		fd := func(f string) *types.Var { return c.field("filterdb", "FilterData", f) }
+		okRec := false
+		for _, f := range ir.WithClosures(pfs) {
+			for _, call := range find(f, callTo(c.funcObj("filterdb", "putFilter"))) {
+				a := ir.CallOf(call).Args
+				// both from the same FilterData element
+				var recH, recF ssa.Value
+				ir.DerivesFrom(a[1], func(x ssa.Value) bool {
+					if fa, ok := x.(*ssa.FieldAddr); ok && ir.FieldOfAddr(fa) == fd("BlockHash") {
+						recH = fa.X
+					}
+					return false
+				})
+				ir.DerivesFrom(a[2], func(x ssa.Value) bool {
+					if fa, ok := x.(*ssa.FieldAddr); ok && ir.FieldOfAddr(fa) == fd("Filter") {
+						recF = fa.X
+					}
+					return false
+				})
+				okRec = recH != nil && recH == recF
+			}
+		}
+		c.verdict(okRec, c.nm(pfs)+" | each record's filter is stored under that record's block hash", c.P.Pos(pfs.Pos()), "BlockHash and Filter of the same FilterData", "PutFilters pairs a filter with the hash of a different record")
+		ff := c.fn("(*filterdb.FilterStore).FetchFilter")
+		get := c.method("github.com/btcsuite/btcwallet/walletdb", "ReadBucket", "Get")
+		fromN := c.funcObj(pGcs, "FromNBytes")
+		okFetch := false
+		pv, mv := c.builderConst("DefaultP"), c.builderConst("DefaultM")
+		for _, f := range ir.WithClosures(ff) {
+			for _, g := range find(f, callTo(get)) {
+				a := argsOf(g)[0]
+				keyOK := ir.DerivesFrom(a, func(x ssa.Value) bool {
+					if x == ssa.Value(ff.Params[1]) {
+						return true
+					}
+					fv, ok := x.(*ssa.FreeVar)
+					return ok && fv.Name() == ff.Params[1].Name()
+				})
+				for _, d := range find(f, callTo(fromN)) {
+					da := ir.CallOf(d).Args
+					p0, ok0 := ir.ConstInt(da[0])
+					m0, ok1 := ir.ConstInt(da[1])
+					okFetch = keyOK && ok0 && ok1 && p0 == pv && m0 == mv && ir.DerivesFrom(da[2], func(x ssa.Value) bool { return x == g.(ssa.Value) })
+				}
+			}
+		}
+		c.verdict(okFetch, c.nm(ff)+" | Get(blockHash[:]) decoded with gcs.FromNBytes(DefaultP, DefaultM, bytes)", c.P.Pos(ff.Pos()), "reader mirrors the writer", "FetchFilter does not read under the requested hash or does not decode with builder.DefaultP/DefaultM")
+		hr := c.fn(fnCFResp)
+		okNet := false
+		for _, d := range find(hr, callTo(fromN)) {
+			da := ir.CallOf(d).Args
+			p0, ok0 := ir.ConstInt(da[0])
+			m0, ok1 := ir.ConstInt(da[1])
+			okNet = ok0 && ok1 && p0 == pv && m0 == mv
+		}
+		c.verdict(okNet, c.nm(hr)+" | network filters decoded with builder.DefaultP/DefaultM", c.P.Pos(hr.Pos()), "same parameters", "the response handler decodes filters with parameters other than builder.DefaultP/DefaultM")
+		// cache key
+		key := func(fn *ssa.Function) (ssa.Value, ssa.Value) {
+			var bh, ft ssa.Value
+			for _, st := range find(fn, storeToField(c.field("neutrino", "FilterCacheKey", "BlockHash"))) {
+				bh = st.(*ssa.Store).Val
+			}
+			for _, st := range find(fn, storeToField(c.field("neutrino", "FilterCacheKey", "FilterType"))) {
+				ft = st.(*ssa.Store).Val
+			}
+			return bh, ft
+		}
+		okKey := true
+		for _, name := range []string{"(*neutrino.ChainService).getFilterFromCache", "(*neutrino.ChainService).putFilterToCache"} {
+			fn := c.fn(name)
+			bh, ft := key(fn)
+			if bh == nil || ft == nil || !isParam(fn, 1)(bh) || !isParam(fn, 2)(ft) {
+				okKey = false
+			}
+		}
+		c.verdict(okKey, "getFilterFromCache / putFilterToCache | key = {*blockHash, filterType} from the arguments", "", "both build the key from (blockHash, filterType)", "the cache key is not built from the block hash and filter type arguments on both sides")
+		// the record handed to the batch writer names the response's block
+		bhResp := c.field(pWire, "MsgCFilter", "BlockHash")
+		okFD := false
+		for _, st := range find(hr, storeToField(fd("BlockHash"))) {
+			okFD = ir.DerivesFrom(st.(*ssa.Store).Val, func(x ssa.Value) bool { return fieldAddrOf(bhResp)(x) })
+		}
+		c.verdict(okFD, c.nm(hr)+" | persisted record is keyed by response.BlockHash", c.P.Pos(hr.Pos()), "FilterData.BlockHash = &response.BlockHash", "the filter is persisted under a hash other than the response's block hash")
+	})
+
 	c.rule("C05.W1", "only the validating handler feeds the filter cache and the persistent filter store: FilterCache.Put only in putFilterToCache, called only from handleResponse; AddItem only from handleResponse; FilterDB.PutFilters only as the batch writer's PutItems (wired in NewChainService)", func() {
 		c.whoMay("ChainService.FilterCache.Put", filterCachePut(), []string{"(*neutrino.ChainService).putFilterToCache"}, 1)
 		c.whoMay("ChainService.putFilterToCache", callTo(putCache()), []string{fnCFResp}, 1)
@@ -309,4 +416,17 @@ func runC05(c *Ctx) {
 		c.whoMay("FilterDatabase.PutFilters (call or method value)", anyOf(callTo(put), refersTo(put)), []string{"neutrino.NewChainService"}, 1)
 		c.whoMay("store to cfiltersQuery.targetFilter", storeToField(q("targetFilter")), []string{fnCFResp}, 1)
 	})
+}
+
+func (c *Ctx) builderConst(name string) int64 {
+	p := c.P.Pkg(pBuilder)
+	if p == nil {
+		panic(anchorErr{"package gcs/builder"})
+	}
+	k, ok := p.Scope().Lookup(name).(*types.Const)
+	if !ok {
+		panic(anchorErr{"const builder." + name})
+	}
+	v, _ := ir.ConstInt(ssa.NewConst(k.Val(), k.Type()))
+	return v
 }
